@@ -166,8 +166,25 @@ def recover_only(R, env, prog, sites, RULE):
         adds = [s for s in subterms(amt) if s[0] == "mut" and s[2].endswith("AddAssign::add_assign")] if amt is not None else []
         good = bool(adds) and elem is not None and all(a[3][0] == ("field", ("field", elem, "amount"), "amount") for a in adds)
         R.ob(RULE, "recover:sum-of-removed", good, "re-sent amount accumulates %s; expected `+= <element>.amount.amount` of the SAME element that is removed" % [fmt(a[3][0])[:100] for a in adds][:3], loc=t["loc"], fn=hk)
-        zero = [s for s in subterms(amt) if s[0] == "call" and s[1] == "cosmwasm_std::Coin::new"] if amt is not None else []
-        R.ob(RULE, "recover:sum-starts-at-zero", bool(zero) and all(const_int(z[2][0]) == 0 for z in zero), "the running total does not start at 0", loc=t["loc"], fn=hk)
+        # the values the running total has before the first addition: peel the `+=` layers and merges
+        starts, stack, seen_ = [], [amt] if amt is not None else [], set()
+        while stack:
+            x = stack.pop()
+            if id(x) in seen_:
+                continue
+            seen_.add(id(x))
+            if x[0] == "phi":
+                stack.extend(x[1])
+            elif x[0] == "mut" and x[2].endswith("AddAssign::add_assign"):
+                stack.append(x[1])
+            elif x[0] == "field" and x[2] == "amount" and x[1][0] in ("phi", "mut", "cycle"):
+                stack.append(x[1])
+            elif x[0] == "cycle" or (x[0] == "field" and x[1][0] == "cycle"):
+                continue
+            else:
+                starts.append(x)
+        is0 = lambda x: const_int(x) == 0 or (x[0] == "field" and x[2] == "amount" and x[1][0] == "call" and x[1][1] == "cosmwasm_std::Coin::new" and const_int(x[1][2][0]) == 0)
+        R.ob(RULE, "recover:sum-starts-at-zero", bool(starts) and all(is0(x) for x in starts), "the running total does not start at 0 (initial values: %s)" % [fmt(x)[:60] for x in starts][:4], loc=t["loc"], fn=hk)
         # removal and addition in the same loop body: both blocks on every path through the iteration
         R.ob(RULE, "recover:resend-on-every-success-path", must_pass(h, t["root_bb"]) and shared.response_contains_call_at(h, t["root_bb"]), "recover can succeed without re-sending", loc=t["loc"], fn=hk)
         rcv = t["receiver"]
